@@ -25,18 +25,22 @@
 (*                             (X87Read).                                  *)
 (*   HexSpelling(kind, bits)   the spelling llvm-dis prints for the bits.  *)
 (*   Widen / Narrow            half|float <-> double-format bits.          *)
-(*   ImplPrint(kind, lit)      the literal the library prints for an input *)
-(*                             literal: identity as REQUIRED by the        *)
-(*                             property; with AsImplemented = TRUE the     *)
-(*                             observed deviations of llir/llvm            *)
-(*                             (Float keeps only a NaN flag and a sign;    *)
-(*                             0xL words are read in the wrong order;      *)
-(*                             x86 unnormals are taken as finite values).  *)
+(*   ImplPrintBits(kind, lit, asImpl)                                      *)
+(*                             the bits LLVM reads from what the library   *)
+(*                             prints for lit: the bits of lit as REQUIRED *)
+(*                             by the property; with asImpl = TRUE the     *)
+(*                             observed deviations of llir/llvm (Float     *)
+(*                             keeps only a NaN flag and a sign; 0xL words *)
+(*                             are read in the wrong order; x86 unnormals  *)
+(*                             are taken as finite values; ppc_fp128 NaNs  *)
+(*                             and -inf lose their sign).  The ppc_fp128   *)
+(*                             detour through a 106-bit sum is not         *)
+(*                             modelled.                                   *)
 (*                                                                         *)
-(* State machine.  stage 0 -> a job (kind, p, q) is chosen -> stage 1 ->   *)
-(* one pattern of the job is chosen -> stage 2.  Jobs: chunks of           *)
-(* ChunkSize consecutive half patterns (all 65 536 with HalfChunks = all   *)
-(* chunks); for float, double, fp128, x86_fp80 the boundary set sign x     *)
+(* State machine.  stage 0 -> a job (kind, p) is chosen -> stage 1 -> one   *)
+(* pattern of the job is chosen -> stage 2.  Jobs: chunks of ChunkSize     *)
+(* consecutive half patterns (all 65 536 with ChunkStride = 1); for        *)
+(* float, double, fp128, x86_fp80 the boundary set sign x                  *)
 (* exponent in {0,1,bias-1,bias,bias+1,max-1,max} x mantissa in {0, 1,     *)
 (* msb, msb|1, all ones, alternating} (x86: x explicit integer bit 0/1,    *)
 (* which yields pseudo-denormals, unnormals, pseudo-infinities and         *)
@@ -268,7 +272,11 @@ ImplPrintBits(kind, lit, asImpl) ==
                  \* 106-bit sum is not (the harness classifies it)
                  IF ClassIEEE("double", SubSeq(raw, 1, 64)) \in {"qnan", "snan"}
                     \/ ClassIEEE("double", SubSeq(raw, 65, 128)) \in {"qnan", "snan"}
-                 THEN LibNaN(kind, 0) ELSE raw
+                 THEN LibNaN(kind, 0)
+                 \* float128ppc.NegInf is +Inf
+                 ELSE IF ClassIEEE("double", SubSeq(raw, 1, 64)) = "inf" /\ AllZero(SubSeq(raw, 65, 128))
+                      THEN <<0>> \o Tail(raw)
+                 ELSE raw
 
 ----------------------------------------------------------------------------
 \* boundary sets
